@@ -22,6 +22,7 @@ import json as _json
 import pickle as _pickle
 import re
 import collections
+import operator
 import sqlite3
 
 from . import devices
@@ -869,6 +870,14 @@ R('fold', 1,
   [lambda e, w: e.fold(w.s[0], 'a', f_fold, value='c'),
    lambda e, w: e.fold(w.s[0], 'a', f_fold, value='c', buffersize=2)],
   'transform.reductions', temp=True)
+# (folding cells that are lists with the library's own `add`: the result is
+# a new list, the cells it was made from are as they were; cells of other
+# kinds in that column make the fold fail, which changes nothing either)
+R('fold-lists', 1,
+  [lambda e, w: e.fold(w.s[0], 'a', operator.add, value='d'),
+   lambda e, w: e.fold(w.s[0], 'a', operator.add, value='d', presorted=True)],
+  'transform.reductions', c01=False, stack=False, fails=True,
+  profile='containers', rect=True)
 R('groupselectfirst', 1,
   [lambda e, w: e.groupselectfirst(w.s[0], 'a'),
    lambda e, w: e.groupselectfirst(w.s[0], 'a', buffersize=2)],
@@ -1242,6 +1251,8 @@ V('recorddiff', lambda e, w: e.recorddiff(w.s[0], w.s[1], strict=True))
 V('duplicates', lambda e, w: e.duplicates(w.s[0], key=['a', 'b']))
 V('unique', lambda e, w: e.unique(w.s[0]))
 V('conflicts',
+  # (the fields to leave out given as a list of the caller's)
+  lambda e, w: e.conflicts(w.s[0], 'a', exclude=w.arg(['b'])),
   lambda e, w: e.conflicts(w.s[0], 'a', missing='', include=['b', 'c']),
   lambda e, w: e.conflicts(w.s[0], ['a', 'b']))
 V('distinct', lambda e, w: e.distinct(w.s[0], key=['a', 'b'], count='n'))
